@@ -282,6 +282,9 @@ class Surface(Numbered_MCNP_Object):
             self._old_transform_number.is_negative = False
             self._tree.nodes["pointer"] = self._old_transform_number
         elif self.periodic_surface is not None:
+            # a node made for a surface without a periodic surface is not signed yet
+            if not self._old_periodic_surface.is_negatable_identifier:
+                self._old_periodic_surface.is_negatable_identifier = True
             self._old_periodic_surface.value = self.periodic_surface.number
             self._old_periodic_surface.is_negative = True
             self._tree.nodes["pointer"] = self._old_periodic_surface
